@@ -332,3 +332,12 @@ func (r *Run) neverAfter(rule, key string, fn *ssa.Function, first, second strin
 	}
 	return ok
 }
+
+// PointeeAt renders what pointer value v designates as seen at instruction at (for locals whose address is returned).
+func (P *Prog) PointeeAt(v ssa.Value, at ssa.Instruction) *Term {
+	tb := &termBuilder{P: P, stack: map[ssa.Value]bool{}}
+	if al, ok := v.(*ssa.Alloc); ok {
+		return tb.loadLocal(al, nil, at)
+	}
+	return tb.term(v, at)
+}
